@@ -194,12 +194,12 @@ def allow_rename_globals(module, rename_globals=False, preserve_globals=None):
     preserve_globals.extend(find__all__(module))
 
     def only_declared(binding):
-        # Is this name only introduced by global statements, and never assigned?
+        # Is this name only introduced by global statements, and never assigned? (deleting it doesn't bind it either)
         declared = False
         for node in binding.references:
             if isinstance(node, ast.Global):
                 declared = True
-            elif not (isinstance(node, ast.Name) and isinstance(node.ctx, ast.Load)):
+            elif not (isinstance(node, ast.Name) and isinstance(node.ctx, (ast.Load, ast.Del))):
                 return False
         return declared
 
